@@ -37,6 +37,10 @@ CLAIMED["C11"] = ("jaxpr->SMT (z3) of the same scene placed with real and with f
                   "bounded SMT verification: for all real initial fields the real parts of the complex run equal the real run exactly, the imaginary parts are exactly 0 and all detector states agree (volume-reduced records: up to 1e-9 relative, decided by a boxed tolerance query because the two placements fold their weight constants differently)",
                   "reals for floats; T <= 6; PML / PEC / PMC / periodic faces; dipole, plane and Gaussian sources; all detector kinds of the shared scene", "4/C11")
 
+CLAIMED["C04"] = ("jaxpr->SMT (z3) of jax.vjp(run_fdtd) under the reversible custom VJP and under checkpointed autodiff, cotangent symbolic on every detector output",
+                  "bounded SMT verification: the gradients w.r.t. inverse permittivity and inverse permeability at every cell outside the absorbing layers are identical linear forms in the cotangent (hence equal for any scalar function of the detector outputs) for every number of reversible checkpoints; conductive scene with a checkpoint at every step",
+                  "reals for floats; primal materials seeded exact rationals; T <= 5, 3x3x6 with z-PML and 3x2x4 periodic; dipole + plane sources; field/energy/Poynting/phasor detectors", "4/C04")
+
 NOT_APPLICABLE = {
     "C12": "numerical accuracy bound (1e-6 residual energy after >=1e3 steps on >=40^3 cells in floating point); no algebraic identity, far beyond any bounded real-arithmetic encoding",
     "C13": "1e-3 power-ratio bound after hundreds of steps (TFSF leakage is small but non-zero by design); not an identity, out of reach for bounded real arithmetic",
